@@ -379,9 +379,9 @@ func c09Cipher(r *core.Run, s *Std, spKey int, spCert *world.Cert, kindRaw, algR
 	wrap := func(alg string, k []byte) {
 		switch alg {
 		case types.MethodRSAOAEP, types.MethodRSAOAEP2, types.MethodRSAv1_5:
-			ek, ekErr = world.WrapKey(alg, "", pub, k)
+			ek, ekErr = world.WrapKey(alg, "", pub, k, nil)
 		default:
-			ek, ekErr = world.WrapKey(types.MethodRSAOAEP, "", pub, k)
+			ek, ekErr = world.WrapKey(types.MethodRSAOAEP, "", pub, k, nil)
 		}
 	}
 	rawCBC := func(plainBlocks []byte) []byte {
